@@ -205,7 +205,9 @@ pub fn emit_module(d: &Decl) -> String {
         s.push_str(&format!("lazy_static! {{\n    pub static ref VEC: {} = {};\n", vec_ty, mk_vec));
         let dur = if d.flush_every_update { "std::time::Duration::from_secs(0)" } else { "std::time::Duration::from_secs(3600)" };
         s.push_str(&format!("    pub static ref M: S = auto_flush_from!(VEC, S, {});\n", dur));
-        s.push_str("    pub static ref INNER_HANDLE: S = S::from(&INNER);\n}\n");
+        s.push_str("    pub static ref INNER_HANDLE: S = S::from(&INNER);\n");
+        s.push_str(&format!("    pub static ref VEC_B: {} = {};\n", vec_ty, mk_vec.replace("\"m\"", "\"m_b\"")));
+        s.push_str(&format!("    pub static ref M_B: S = auto_flush_from!(VEC_B, S, {});\n}}\n", dur));
         s.push_str("thread_local! {\n    pub static INNER: SInner = SInner::from(&VEC);\n}\n\n");
     }
     s.push_str("pub fn run() -> Vec<String> {\n    let mut fails: Vec<String> = vec![];\n");
@@ -335,6 +337,42 @@ pub fn emit_module(d: &Decl) -> String {
         }
         s.push_str("    });\n    INNER_HANDLE.flush();\n");
         paths_used += 2;
+    }
+    // a second instance of the same generated type on a second vector: what goes through it arrives in that vector and nowhere else
+    if d.auto_flush {
+        s.push_str("    let mb = &*M_B;\n");
+        for (i, leaf) in lv.iter().enumerate() {
+            let n = (i + 1) as u64;
+            let fields: Vec<String> = leaf.iter().enumerate().map(|(li, vi)| format!(".{}", d.labels[li].values[*vi].ident)).collect();
+            s.push_str(&format!("    mb{}{};\n", fields.join(""), upd(format!("{}u64", n * 1_000_000_000_000))));
+        }
+        for leaf in lv.iter() {
+            let fields: Vec<String> = leaf.iter().enumerate().map(|(li, vi)| format!(".{}", d.labels[li].values[*vi].ident)).collect();
+            s.push_str(&format!("    mb{}.flush();\n", fields.join("")));
+        }
+        s.push_str("    let mut expected_b: std::collections::BTreeMap<Vec<(String, String)>, f64> = std::collections::BTreeMap::new();\n");
+        for (i, leaf) in lv.iter().enumerate() {
+            let mut pairs: Vec<(String, String)> = leaf.iter().enumerate().map(|(li, vi)| (d.labels[li].name.clone(), d.labels[li].values[*vi].string())).collect();
+            pairs.sort();
+            let lit: Vec<String> = pairs.iter().map(|(k, v)| format!("({}.to_string(), {}.to_string())", rust_str(k), rust_str(v))).collect();
+            s.push_str(&format!("    *expected_b.entry(vec![{}]).or_insert(0.0) += {}f64;\n", lit.join(", "), (i as u64 + 1) * 1_000_000_000_000));
+        }
+        s.push_str(
+            r#"    {
+        let fams = VEC_B.collect();
+        let mut seen_b: std::collections::BTreeMap<Vec<(String, String)>, f64> = std::collections::BTreeMap::new();
+        for mm in fams[0].get_metric() {
+            let mut l: Vec<(String, String)> = mm.get_label().iter().map(|l| (l.name().to_string(), l.value().to_string())).collect();
+            l.sort();
+            seen_b.insert(l, value_of(mm));
+        }
+        if seen_b != expected_b {
+            let wrong: Vec<String> = expected_b.iter().filter(|(l, v)| seen_b.get(*l) != Some(*v)).take(3).map(|(l, v)| format!("{:?} has value {:?} but the updates made through the second instance sum to {}", l, seen_b.get(l), v)).collect();
+            fails.push(format!("second instance of the type, built on a second vector: child {} ({} children, {} leaves)", wrong.join("; "), seen_b.len(), expected_b.len()));
+        }
+    }
+"#,
+        );
     }
     // expected children
     s.push_str("    let mut expected: std::collections::BTreeMap<Vec<(String, String)>, f64> = std::collections::BTreeMap::new();\n");
@@ -602,7 +640,7 @@ impl Property for C19 {
          vector. A batch of declarations is written as one crate (one module each) with a generated driver per declaration, built \
          against the working tree and run. Oracle: the backing vector has exactly one child per declared leaf, labelled with the \
          declared value strings, whose value is the sum of the leaf-unique updates made through the field path, the get(enum) chain \
-         and the try_get(str) chain of that leaf (auto-flush form: and the field path used and flushed from a second thread, and the field path of the per-thread inner struct in a hand-written thread_local, flushed through that struct and through a handle built on it); aliased \
+         and the try_get(str) chain of that leaf (auto-flush form: and the field path used and flushed from a second thread, and the field path of the per-thread inner struct in a hand-written thread_local, flushed through that struct and through a handle built on it, and a second instance of the type built on a second vector); aliased \
          leaves share one child; try_get of undeclared strings is None; after flush no local data remains; a \
          declaration that does not compile is a failure. Non-trivial: >= 2 labels with >= 2 values, an enum or renamed value, and a \
          permuted vector label order. Distinct = distinct declarations."
